@@ -16,16 +16,19 @@ BASE = frozenset(
     "list olist quote atx emph code hr task listpad lazy blanklines tightjoin spaces strike alert cjk escape entity fenced "
     "setext reflink fnref tagline hardbreak link table refdef heading_in_quote".split()
 )
+# Hazard words (block-marker look-alikes) inside full documents; `haz_fence` stays off: an escaped "```" word followed by a
+# code span is misread by Marko's inline parser (reader limitation, DESIGN §6), the exhaustive sweep of C01 covers the word itself.
+HAZ = frozenset("table_nested olist_paren haz_bullet haz_ordered haz_atx haz_quote haz_rule haz_setext haz_pipe haz_misc haz_gtx haz_backslash".split())
 
 
 ENABLED: dict[str, frozenset] = {
-    "C01": BASE,
-    "C02": BASE,
-    "C03": BASE,
-    "C04": BASE,
-    "C06": BASE,
-    "C10": BASE,
-    "C13": BASE,
+    "C01": BASE | HAZ,
+    "C02": BASE | HAZ,
+    "C03": BASE | HAZ,
+    "C04": BASE | HAZ,
+    "C06": BASE | HAZ,
+    "C10": BASE | HAZ,
+    "C13": BASE | HAZ,
 }
 
 NOT_ENABLED_REASON = (
